@@ -67,7 +67,7 @@ class Run:
                 self.known_hits[f['id']] = self.known_hits.get(f['id'], 0) + 1
                 return False
         path = None
-        if len(self.violations) < 20:
+        if sum(1 for v in self.violations if v[0] == clause) < 6 and len(self.violations) < 60:
             os.makedirs(REPLAY_DIR, exist_ok=True)
             path = os.path.join(REPLAY_DIR, '%s_%s_%d.json' % (self.pid, clause.replace('/', '_')[:40], len(self.violations)))
             with open(path, 'w') as fh:
